@@ -533,6 +533,17 @@ func TestDrive(t *testing.T) {
 			}
 		}
 	}
+	if prop == "4" && only == "" {
+		nreal := 40
+		if tier == "thorough" {
+			nreal = 1500
+		}
+		for i := 0; i < nreal; i++ {
+			fmt.Fprintln(bw, realPacer(t, prop, i, seed))
+			dist["real-constant-pacer"]++
+			ncli++
+		}
+	}
 	meta["cli_cases"] = ncli
 	meta["cases"], meta["distribution"], meta["samples"] = len(scripts)+ncli, dist, samples
 	if mp := os.Getenv("VH_META"); mp != "" {
